@@ -17,7 +17,7 @@
    Times are natural numbers here (the code uses floats; the harness drives it with integral
    values on which float arithmetic is exact).  Executable definitions only; proofs in
    proof/L_Nonce.v. *)
-From Coq Require Import List NArith Bool.
+From Coq Require Import List NArith ZArith Bool.
 From VGI Require Import Sched_C23 Corr.
 Import ListNotations.
 Open Scope N_scope.
@@ -160,3 +160,28 @@ Definition evt_eqb : N * N * N * N * bool -> N * N * N * N * bool -> bool :=
   pair_eqb (pair_eqb (pair_eqb (pair_eqb N.eqb N.eqb) N.eqb) N.eqb) Bool.eqb.
 Definition case_out_eqb : case_out -> case_out -> bool :=
   option_eqb (pair_eqb (list_eqb snapshot_eqb) (list_eqb evt_eqb)).
+
+(* ---- gate level: vgi_rpc/http/_proof.py --------------------------------------------------------
+     verify_proof      current = int(time.time()); age = current - int(ts)
+                       if age > skew: expired;  if -age > skew: not_yet_valid;  ... MAC ...
+                       if not nonce_cache.check_and_add(nonce): replayed
+     proxy_proof_gate  cache = NonceCache(ttl_seconds = <mul> * config.skew_seconds + <add>, ...)
+   One time base: the wall clock of the timestamp step and the monotonic clock of the cache are taken
+   to advance together (no wall-clock step inside a window); whole seconds.  [ts] may lie on either
+   side of the clock, hence Z. *)
+Definition cmpz_eval (c : cmp) (a b : Z) : bool :=
+  match c with
+  | CLt => (a <? b)%Z | CLe => (a <=? b)%Z | CGt => (b <? a)%Z | CGe => (b <=? a)%Z
+  | CEq => (a =? b)%Z | CNe => negb (a =? b)%Z
+  end.
+
+(* the timestamp step passes *)
+Definition ts_ok_with (op_expired op_notyet : cmp) (skew ts current : Z) : bool :=
+  let age := (current - ts)%Z in
+  negb (cmpz_eval op_expired age skew) && negb (cmpz_eval op_notyet (- age)%Z skew).
+Definition ts_ok := ts_ok_with CGt CGt.
+
+(* the ttl the gate gives its cache *)
+Definition gate_ttl (mul add skew : N) : N := mul * skew + add.
+
+Definition run_ts_case (i : Z * Z * Z) : bool := let '(skew, ts, cur) := i in ts_ok skew ts cur.
